@@ -21,9 +21,12 @@ import (
 	"math/rand"
 	"os"
 	"sort"
+	"strconv"
+	"strings"
 	"time"
 
 	. "github.com/pbenner/autodiff"
+	st "github.com/pbenner/autodiff/statistics"
 	"verifharness/exprlib"
 	"verifharness/vh"
 )
@@ -64,6 +67,8 @@ type family struct {
 	Pvec     []json.RawMessage `json:"pvec"`
 	Dv       []int             `json:"dv"`
 	HasCdf   bool              `json:"hascdf"`
+	WGroups  [][]int           `json:"wgroups"`
+	RawW     []int             `json:"rawweights"`
 	Disc     bool              `json:"disc"`
 	ExactPmf bool              `json:"exactpmf"`
 	pvec     []*exprlib.Term
@@ -312,6 +317,28 @@ func checkGet(f *family, c *tcase, tname string, o *obj, p []float64, what strin
 			}
 		}
 	}
+	// the weights a mixture reports sum to one (every group of log-weights of the layout)
+	if pm == "" {
+		for _, g := range f.WGroups {
+			if len(g) != 2 || g[1] > len(got) {
+				continue
+			}
+			sum := 0.0
+			for i := g[0]; i <= g[1]; i++ {
+				sum += math.Exp(got[i-1])
+			}
+			counts["weight_sums"]++
+			if !closeTo(sum, 1, 1e-12) {
+				s := baseSig(c, tname)
+				s["what"] = "weights_do_not_sum_to_one"
+				s["after"] = what
+				d := caseDetail(c, f)
+				d["got_parameters"] = jfs(got)
+				d["sum_of_weights"] = jf(sum)
+				mismatch(s, d)
+			}
+		}
+	}
 	if bad {
 		s := baseSig(c, tname)
 		s["what"] = what
@@ -358,10 +385,50 @@ func replayNew(f *family, c *tcase) {
 			mismatch(s, caseDetail(c, f))
 		}
 		checkGet(f, c, tt.name, o, p, "get_after_new")
+		if len(f.RawW) > 0 {
+			checkImport(f, c, tt.name, tt.t, o, p)
+		}
 		if f.ExactPmf && len(c.Pmf) > 0 {
 			checkPmf(f, c, tt.name, tt.t, o, p)
 		}
 	}
+}
+
+// checkImport: ExportConfig, the weights of the outer mixture replaced by the raw
+// (un-normalised) input weights, ImportConfig into a new object: the imported
+// object must report the parameter vector of the contract (normalised weights).
+func checkImport(f *family, c *tcase, tname string, t ScalarType, o *obj, p []float64) {
+	var o2 *obj
+	var err error
+	pm := vh.Try(func() {
+		cfg := o.export()
+		raw := make([]float64, len(f.RawW))
+		for i, k := range f.RawW {
+			raw[i] = p[k-1]
+		}
+		cfg.Parameters = raw
+		// through the JSON form, as a configuration file would be read
+		var b []byte
+		if b, err = json.Marshal(cfg); err != nil {
+			return
+		}
+		var cfg2 st.ConfigDistribution
+		if err = json.Unmarshal(b, &cfg2); err != nil {
+			return
+		}
+		o2, err = o.imp(cfg2, t)
+	})
+	counts["config_imports"]++
+	if pm != "" || err != nil || o2 == nil {
+		s := baseSig(c, tname)
+		s["what"] = "import_config_fails"
+		d := caseDetail(c, f)
+		d["error"] = fmt.Sprint(err)
+		d["panic"] = pm
+		mismatch(s, d)
+		return
+	}
+	checkGet(f, c, tname, o2, p, "get_after_import")
 }
 
 // checkPmf compares exp(LogPdf(k)) with the exact rational mass computed by TLC.
@@ -403,6 +470,10 @@ func checkPmf(f *family, c *tcase, tname string, t ScalarType, o *obj, p []float
 		mismatch(s, d)
 	}
 }
+
+// families whose SetParameters killed the probe process (fatal runtime error):
+// their Set transitions and every state reached through Set cannot be executed
+var setBroken = map[string]bool{}
 
 func replaySet(f *family, c *tcase) {
 	for _, tt := range typeTab {
@@ -674,7 +745,7 @@ func replayEval(f *family, c *tcase) {
 		}
 		// ---- derivatives w.r.t. the parameters against Expr!D of the term
 		singular := false
-		if c.B != 0 {
+		if c.B != 0 || len(f.WGroups) > 0 {
 			// object A got its parameters through the parameter vector and object B is a
 			// clone (Binomial clones through exp(log theta)); where the
 			// layout is singular (log theta at theta = 0) the chain rule through
@@ -798,6 +869,11 @@ func checkCdf(f *family, c *tcase, vr *variant, tname string, res *evalRes, vars
 }
 
 func replay(casesPath, resultsPath string) {
+	for _, f := range strings.Split(os.Getenv("VERIF_DIST_SETBROKEN"), ",") {
+		if f != "" {
+			setBroken[f] = true
+		}
+	}
 	out = vh.NewOut(resultsPath)
 	wd := vh.NewWatchdog(60*time.Second, out, vh.M{"engine": "dist"})
 	n := 0
@@ -823,6 +899,10 @@ func replay(casesPath, resultsPath string) {
 			return fmt.Errorf("case for unknown family %s", c.Fam)
 		}
 		n++
+		if setBroken[c.Fam] && (c.Op == "set" || c.B != 0) {
+			counts["skipped_set_fatal"]++
+			return nil
+		}
 		wd.Begin(c)
 		switch c.Op {
 		case "new":
@@ -1016,6 +1096,48 @@ func record(casesPath, tracePath, resultsPath string) {
 	out.Close()
 }
 
+// probe <fams.ndjson> <progress> <start>: for every family record from index
+// <start> on: construct the first valid tuple, read the parameter vector, feed
+// it back through SetParameters, clone.  Progress is appended to <progress>
+// BEFORE every family, so that the parent sees which family killed the process
+// (a fatal runtime error such as a stack overflow cannot be recovered).
+func probe(famsPath, progressPath string, start int) {
+	var lines [][]byte
+	vh.EachLine(famsPath, func(line []byte) error {
+		lines = append(lines, append([]byte{}, line...))
+		return nil
+	})
+	pf, err := os.OpenFile(progressPath, os.O_APPEND|os.O_CREATE|os.O_WRONLY, 0644)
+	if err != nil {
+		vh.Fatal(err)
+	}
+	for i := start; i < len(lines); i++ {
+		if err := parseFamily(lines[i]); err != nil {
+			vh.Fatal(err)
+		}
+		var fr family
+		json.Unmarshal(lines[i], &fr)
+		f := fams[fr.Fam]
+		fmt.Fprintf(pf, "start %d %s\n", i, f.Fam)
+		pf.Sync()
+		for _, tt := range typeTab {
+			vh.Try(func() {
+				o, err := build(f.Fam, f.param(1), tt.t, false)
+				if err != nil || o == nil {
+					return
+				}
+				v := o.get().CloneVector()
+				o.set(v)
+				o.clone()
+			})
+		}
+		fmt.Fprintf(pf, "ok %d %s\n", i, f.Fam)
+		pf.Sync()
+	}
+	fmt.Fprintf(pf, "done\n")
+	pf.Close()
+}
+
 func main() {
 	if len(os.Args) < 2 {
 		vh.Fatal("usage: dist replay|record ...")
@@ -1026,6 +1148,12 @@ func main() {
 			vh.Fatal("usage: dist replay <cases.ndjson> <results.ndjson>")
 		}
 		replay(os.Args[2], os.Args[3])
+	case "probe":
+		if len(os.Args) != 5 {
+			vh.Fatal("usage: dist probe <fams.ndjson> <progress> <start>")
+		}
+		st, _ := strconv.Atoi(os.Args[4])
+		probe(os.Args[2], os.Args[3], st)
 	case "record":
 		if len(os.Args) != 5 {
 			vh.Fatal("usage: dist record <cases.ndjson> <trace.ndjson> <results.ndjson>")
